@@ -48,7 +48,8 @@ import (
 
 type pagingLinkScore struct {
 	linkText  string
-	linkHref  string
+	linkHref  string // cleaned URL in unescaped form, used for all comparisons
+	linkURL   string // the same URL the way URL.String() writes it, which is what is returned
 	linkIndex int
 	score     int
 }
@@ -159,6 +160,14 @@ func (pnf *PrevNextFinder) FindOutlink(root *html.Node, pageURL *nurl.URL, findN
 
 		tmp.Fragment = ""
 		tmp.RawFragment = ""
+
+		// The unescaped form below is only fit for comparisons: with its reserved
+		// characters decoded (%25, %2F, %3F, %0A ...) it may not even be a valid
+		// URL anymore, or name another resource.
+		escaped := *tmp
+		stringutil.TrimTrailingSlash(&escaped)
+		linkURL := escaped.String()
+
 		tmp.Path = strings.TrimSuffix(tmp.Path, "/")
 		tmp.RawPath = tmp.Path
 		linkHref = stringutil.UnescapedString(tmp)
@@ -215,6 +224,7 @@ func (pnf *PrevNextFinder) FindOutlink(root *html.Node, pageURL *nurl.URL, findN
 			linkIndex: i,
 			linkText:  linkText,
 			linkHref:  linkHref,
+			linkURL:   linkURL,
 			score:     0,
 		}
 
@@ -390,7 +400,7 @@ func (pnf *PrevNextFinder) FindOutlink(root *html.Node, pageURL *nurl.URL, findN
 
 	pagingHref := ""
 	if topPage != nil {
-		pagingHref = topPage.linkHref
+		pagingHref = topPage.linkURL
 		pnf.appendDebugStrForLink(allLinks[topPage.linkIndex], fmt.Sprintf(
 			"found: score %d, text=[%s] %s",
 			topPage.score, topPage.linkText, topPage.linkHref))
